@@ -165,6 +165,119 @@ fn sack_cases(run: &mut Run, rng: &mut Rng, thorough: bool) {
     run.count_n("sack_random", n);
 }
 
+// histories of SACKs through the real `handle_sack` (hook: verif_handle_sack on a loaded sender)
+
+fn rec_text_n(r: &hook::VRecord) -> String {
+    let mut r = r.clone();
+    if r.sent_ms >= 50_000 { r.sent_ms = 0; }
+    r.fast_retransmit_ms = r.fast_retransmit_ms.map(|v| if v >= 50_000 { 0 } else { v });
+    rec_text(&r)
+}
+
+pub struct HsackCase { pub pc: u32, pub last_sig: u64, pub maxrtx: u32, pub held: Vec<u32>, pub q: Vec<hook::VRecord>, pub sacks: Vec<(u32, u32, Vec<(u16, u16)>)> }
+
+pub fn hsack_text(c: &HsackCase) -> String {
+    format!("{} {} {} {} {} / {}", c.pc, c.last_sig, c.maxrtx, show_u32s(&c.held),
+        if c.q.is_empty() { "-".to_string() } else { c.q.iter().map(rec_text).collect::<Vec<_>>().join(" ") },
+        c.sacks.iter().map(|(c, a, g)| format!("{c};{a};{}", show_gaps(g))).collect::<Vec<_>>().join(" "))
+}
+
+pub fn hsack_parse(toks: &[&str]) -> Option<HsackCase> {
+    if toks.len() < 6 { return None; }
+    let held: Vec<u32> = if toks[3] == "-" { vec![] } else { toks[3].split(',').filter_map(|t| t.parse().ok()).collect() };
+    let slash = toks.iter().position(|t| *t == "/")?;
+    let q: Vec<hook::VRecord> = toks[4..slash].iter().filter(|t| **t != "-").filter_map(|t| { let f: Vec<&str> = t.split(',').collect(); if f.len() != 11 { return None; }
+        let mut r = mk_rec(f[0].parse().ok()?, f[1].parse().ok()?); r.sent_ms = f[2].parse().ok()?; r.transmit_count = f[3].parse().ok()?; r.missing_reports = f[4].parse().ok()?;
+        r.abandoned = f[5] == "1"; r.fast_retransmit = f[6] == "1"; r.needs_retransmit = f[7] == "1"; r.fast_retransmit_ms = f[8].parse().ok(); r.in_flight = f[9] == "1"; r.acked = f[10] == "1"; Some(r) }).collect();
+    let sacks = toks[slash + 1..].iter().filter_map(|t| { let f: Vec<&str> = t.split(';').collect(); if f.len() != 3 { return None; }
+        let gaps: Vec<(u16, u16)> = if f[2] == "-" { vec![] } else { f[2].split(',').filter_map(|g| { let (a, b) = g.split_once('-')?; Some((a.parse().ok()?, b.parse().ok()?)) }).collect() };
+        Some((f[0].parse().ok()?, f[1].parse().ok()?, gaps)) }).collect();
+    Some(HsackCase { pc: toks[0].parse().ok()?, last_sig: toks[1].parse().ok()?, maxrtx: toks[2].parse().ok()?, held, q, sacks })
+}
+
+/// run one history on the real sender; oracle: a record leaves the queue or loses its payload only if
+/// the receiver (whose final holdings are `held`) has that TSN
+pub async fn emit_hsack(run: &mut Run, ep: &mut Endpoint, c: &HsackCase, verbose: bool) {
+    let input = hsack_text(c);
+    let flight: usize = c.q.iter().filter(|r| r.in_flight).map(|r| r.len).sum();
+    let next = c.q.iter().map(|r| r.tsn).max_by_key(|t| t.wrapping_sub(c.pc)).map(|t| t.wrapping_add(1)).unwrap_or(c.pc.wrapping_add(1));
+    ep.sctp.verif_load_sender(&c.q, &[], 100_000, flight, 100_000, next, false);
+    ep.sctp.verif_set_sack_history(c.pc, c.last_sig);
+    while ep.out_rx.try_recv().is_ok() {}
+    let mut outs = vec![];
+    let mut freed_wrong: Vec<u32> = vec![];
+    for (cum, arwnd, gaps) in &c.sacks {
+        let mut v = Vec::with_capacity(12 + 4 * gaps.len());
+        v.extend_from_slice(&cum.to_be_bytes()); v.extend_from_slice(&arwnd.to_be_bytes());
+        v.extend_from_slice(&(gaps.len() as u16).to_be_bytes()); v.extend_from_slice(&0u16.to_be_bytes());
+        for (a, b) in gaps { v.extend_from_slice(&a.to_be_bytes()); v.extend_from_slice(&b.to_be_bytes()); }
+        let _ = ep.sctp.verif_handle_sack(Bytes::from(v)).await;
+        // retransmitted chunks leave as the (all-zero) loaded payloads: count their bytes
+        let mut rexb = 0usize;
+        while let Ok(p) = ep.out_rx.try_recv() { rexb += p.len().saturating_sub(12); }
+        let after = ep.sctp.verif_sent_queue();
+        let (rw, pc) = ep.sctp.verif_sack_view();
+        let fl = ep.sctp.verif_snapshot().flight_size;
+        for r in &c.q {
+            let freed = match after.iter().find(|x| x.tsn == r.tsn) { None => true, Some(x) => x.acked && !r.acked };
+            if freed && !c.held.contains(&r.tsn) && !freed_wrong.contains(&r.tsn) { freed_wrong.push(r.tsn); }
+        }
+        outs.push(format!("rw={rw} pc={pc} fl={fl} rexb={rexb} q={}", after.iter().map(rec_text_n).collect::<Vec<_>>().join(" ")));
+    }
+    let out = outs.join(" | ");
+    if verbose { println!("impl: {out}"); }
+    for t in &freed_wrong {
+        run.fail("sack:record-freed-but-receiver-does-not-hold-it", &format!("hsack {input}"), &format!("TSN {t} left the sent queue or lost its payload; the receiver holds {}", show_u32s(&c.held)));
+        if verbose { println!("ORACLE-FAIL sack:record-freed-but-receiver-does-not-hold-it TSN {t}"); }
+    }
+    run.case("hsack", &input, &out, true);
+}
+
+fn hsack_cases(run: &mut Run, rng: &mut Rng, thorough: bool) {
+    let rt = tokio::runtime::Builder::new_current_thread().enable_all().build().unwrap();
+    rt.block_on(async {
+        let mut ep = Endpoint::new(57_900, 57_901, true, &EpCfg::default(), &[]).await;
+        let n = if thorough { 12_000 } else { 2_500 };
+        let (mut stale_gap, mut reordered) = (0u64, 0u64);
+        for k in 0..n {
+            let r0 = rng.next() as u32;
+            let base = *rng.pick(&[100u32, 0xFFFF_FFFA, 0x7FFF_FFFC, 0, r0]);
+            let nrec = rng.range(3, 10) as usize;
+            let q: Vec<hook::VRecord> = (0..nrec).map(|i| mk_rec(base.wrapping_add(i as u32), 100 + 4 * i)).collect();
+            // the receiver: which chunks arrive, in which order; a SACK after every arrival
+            let mut order: Vec<usize> = (0..nrec).filter(|i| if *i == 0 { k % 3 != 0 && rng.chance(2, 3) } else { rng.chance(3, 4) }).collect();
+            for i in (1..order.len()).rev() { let j = rng.below(i as u64 + 1) as usize; if rng.chance(1, 2) { order.swap(i, j); } }
+            let mut cum = base.wrapping_sub(1);
+            let mut held: Vec<u32> = vec![];
+            let mut sacks = vec![];
+            for i in &order {
+                held.push(base.wrapping_add(*i as u32));
+                while held.contains(&cum.wrapping_add(1)) { cum = cum.wrapping_add(1); }
+                let above: Vec<u32> = held.iter().copied().filter(|t| (t.wrapping_sub(cum) as i32) > 0).collect();
+                sacks.push((cum, 100_000 - 100 * above.len() as u32, hook::gap_blocks(&above, cum)));
+            }
+            // delivery to the sender: in order, or with SACKs overtaken by later ones, or duplicated late
+            let mut del = sacks.clone();
+            match k % 4 {
+                0 => {}
+                1 => { for _ in 0..rng.range(1, 3) { if del.len() >= 2 { let i = rng.below(del.len() as u64 - 1) as usize; let j = rng.range(i as u64 + 1, del.len() as u64 - 1) as usize; let s = del.remove(i); del.insert(j, s); } } }
+                2 => { if del.len() >= 2 { let i = rng.below(del.len() as u64 - 1) as usize; let s = del[i].clone(); del.push(s); } }
+                _ => { for i in (1..del.len()).rev() { let j = rng.below(i as u64 + 1) as usize; del.swap(i, j); } }
+            }
+            let mut best: Option<u32> = None;
+            for (c, _, g) in &del { if let Some(b) = best { if (b.wrapping_sub(*c) as i32) > 0 { reordered += 1; if !g.is_empty() { stale_gap += 1; } } }
+                if best.map_or(true, |b| (c.wrapping_sub(b) as i32) > 0) { best = Some(*c); } }
+            let mut q = q; q.sort_by_key(|r| r.tsn); // the map's (numeric) key order
+            let c = HsackCase { pc: base.wrapping_sub(1), last_sig: 0, maxrtx: 8, held, q, sacks: del };
+            emit_hsack(run, &mut ep, &c, false).await;
+        }
+        run.count_n("hsack_histories", n as u64);
+        run.count_n("hsack_overtaken_sacks", reordered);
+        run.count_n("hsack_overtaken_sacks_with_gap_blocks", stale_gap);
+        ep.shutdown();
+    });
+}
+
 fn istream_cases(run: &mut Run, rng: &mut Rng, thorough: bool) {
     let n = if thorough { 20_000 } else { 3_000 };
     for k in 0..n {
@@ -225,6 +338,7 @@ fn frag_cases(run: &mut Run, rt: &tokio::runtime::Runtime, rng: &mut Rng, thorou
     let mps: [Option<usize>; 6] = [None, Some(1), Some(100), Some(1172), Some(1200), Some(5000)];
     let mut port = 60_000u16;
     let mut n = 0;
+    let mut refused_ok = true;
     for &size in &sizes {
         for mp in mps {
             if mp == Some(1) && size > 3000 { continue; }
@@ -242,6 +356,10 @@ fn frag_cases(run: &mut Run, rt: &tokio::runtime::Runtime, rng: &mut Rng, thorou
                     cfg.max_buffered = 0;
                     let chans = if variant == 4 { vec![] } else { vec![spec.clone()] };
                     let ep = Endpoint::new(port, port + 1, true, &cfg, &chans).await;
+                    // a channel that is still Connecting refuses data (98ed161, 23adf47): nothing is queued
+                    if variant != 4 && ep.sctp.send_data(7, b"early").await.is_ok() { refused_ok = false; }
+                    if !ep.sctp.verif_snapshot().outbound_queue.is_empty() { refused_ok = false; }
+                    for d in &ep.dcs { d.state.store(1, std::sync::atomic::Ordering::SeqCst); }
                     for _ in 0..presend { let _ = ep.sctp.send_data(7, b"x").await; }
                     let before = ep.sctp.verif_snapshot().outbound_queue.len();
                     let next_before = ep.dcs.first().map(|d| d.next_ssn.load(std::sync::atomic::Ordering::SeqCst));
@@ -269,6 +387,7 @@ fn frag_cases(run: &mut Run, rt: &tokio::runtime::Runtime, rng: &mut Rng, thorou
         }
     }
     run.count_n("frag_cases", n);
+    if !refused_ok { run.fail("send:accepted-on-a-channel-that-is-still-connecting", "frag", "send_data returned Ok or queued chunks while the channel state was Connecting"); }
 }
 
 // ------------------------------------------------------------------------------------------
@@ -283,11 +402,13 @@ pub struct LinkCase {
 pub fn case_text(c: &Case) -> String {
     let ch = |v: &Vec<ChanSpec>| if v.is_empty() { "-".to_string() } else { v.iter().map(|c| format!("{}:{}:{}:{}:{}", c.id, c.ordered as u8, c.negotiated as u8,
         c.max_retransmits.map(|v| v.to_string()).unwrap_or("-".into()), c.max_lifetime.map(|v| v.to_string()).unwrap_or("-".into()))).collect::<Vec<_>>().join(";") };
-    let mt = |ph: u8| c.msgs.iter().filter(|m| m.phase == ph).map(|m| format!("{}{}:{}", if m.side == 0 { "A" } else { "B" }, m.chan, m.data.len())).collect::<Vec<_>>().join(";");
+    let mt = |ph: u8| c.msgs.iter().filter(|m| m.phase == ph).map(|m| format!("{}{}:{}{}", if m.side == 0 { "A" } else { "B" }, m.chan, m.data.len(), if m.task != 0 { format!("@{}", m.task) } else { String::new() })).collect::<Vec<_>>().join(";");
     let ms = if c.msgs.is_empty() { "-".to_string() } else if c.msgs.iter().any(|m| m.phase == 1) { format!("{}|{}", mt(0), mt(1)) } else { mt(0) };
     let ep = |e: &EpCfg| format!("{}:{}:{}:{}:{}:{}:{}", e.rwnd, e.rto_initial_ms, e.max_burst, e.max_cwnd,
         e.seed_tsn.map(|v| v.to_string()).unwrap_or("-".into()), e.seed_tag.map(|v| v.to_string()).unwrap_or("-".into()), e.max_buffered);
-    format!("link epA={} epB={} chA={} chB={} msgs={} faults={}", ep(&c.cfg[0]), ep(&c.cfg[1]), ch(&c.chans[0]), ch(&c.chans[1]), ms, faults_text(&c.faults))
+    let cl = if c.closes.is_empty() { "-".to_string() } else { c.closes.iter().map(|(s, id)| format!("{}{}{id}", if *s >= 2 { "^" } else { "" }, ["A", "B"][*s % 2])).collect::<Vec<_>>().join(";") };
+    format!("link epA={} epB={} chA={} chB={} msgs={} faults={} closes={cl} end={}{}", ep(&c.cfg[0]), ep(&c.cfg[1]), ch(&c.chans[0]), ch(&c.chans[1]), ms, faults_text(&c.faults), c.end.text(),
+        if c.settle > Duration::from_millis(1000) { format!(" settle={}", c.settle.as_millis()) } else { String::new() })
 }
 
 /// payload of message `idx` on a channel: deterministic, distinct per (side, chan, idx), any size
@@ -322,13 +443,18 @@ pub fn parse_case(s: &str) -> Option<Case> {
         for (ph, part) in kv.get("msgs")?.split('|').enumerate() {
             for m in part.split(';').filter(|m| !m.is_empty()) {
                 let (a, len) = m.split_once(':')?; let side = if a.starts_with('A') { 0 } else { 1 }; let chan: u16 = a[1..].parse().ok()?;
+                let (len, task) = match len.split_once('@') { Some((l, t)) => (l, t.parse().ok()?), None => (len, 0u8) };
                 let i = idx.entry((side, chan)).or_insert(0usize); let d = payload(side, chan, *i, len.parse().ok()?); *i += 1;
-                msgs.push(Msg { side, chan, data: d, phase: ph as u8, task: 0 });
+                msgs.push(Msg { side, chan, data: d, phase: ph as u8, task });
             }
         }
     }
     Some(Case { cfg: [ep(kv.get("epA")?)?, ep(kv.get("epB")?)?], chans: [ch(kv.get("chA")?), ch(kv.get("chB")?)], msgs,
-        faults: faults_parse(kv.get("faults")?), deadline: Duration::from_secs(12), settle: Duration::from_millis(60), closes: vec![] })
+        faults: faults_parse(kv.get("faults")?), deadline: Duration::from_secs(12),
+        settle: Duration::from_millis(kv.get("settle").and_then(|t| t.parse().ok()).unwrap_or(60)),
+        closes: match kv.get("closes") { Some(t) if t != "-" => t.split(';').filter_map(|x| { let (early, x) = match x.strip_prefix('^') { Some(r) => (2, r), None => (0, x) };
+            Some((early + if x.starts_with('A') { 0 } else { 1 }, x[1..].parse().ok()?)) }).collect(), _ => vec![] },
+        end: kv.get("end").map(|t| End::parse(t)).unwrap_or(End::None) })
 }
 
 fn mk_case(sizes: &[usize], faults: Vec<Fault>, tsn: Option<u32>) -> Case {
@@ -340,7 +466,7 @@ fn mk_case(sizes: &[usize], faults: Vec<Fault>, tsn: Option<u32>) -> Case {
     let msgs = sizes.iter().enumerate().map(|(i, l)| Msg { side: 0, chan: 1, data: payload(0, 1, i, *l),
         phase: if n > 1 && i == n - 1 { 1 } else { 0 }, task: 0 }).collect();
     Case { cfg, chans: [vec![ChanSpec::reliable(1)], vec![ChanSpec::reliable(1)]], msgs, faults,
-        deadline: Duration::from_secs(12), settle: Duration::from_millis(60), closes: vec![] }
+        deadline: Duration::from_secs(12), settle: Duration::from_millis(60), closes: vec![], end: End::None }
 }
 
 fn ev_text(e: &DataChannelEvent) -> String {
@@ -367,6 +493,7 @@ pub fn replay_lines(side: usize, c: &Case, o: &Outcome) -> (String, String, usiz
             hook::Ev::Mark("enqueue", v) => {
                 if in_rx && v[1] == 50 { acts.push(if v[2] == 1 { format!("ack{}", v[0]) } else { format!("open{}", v[0]) }); }
             }
+            hook::Ev::Mark("close_dc", v) if c.closes.iter().any(|(s2, id)| *s2 == side + 2 && *id as u64 == v[0]) => toks.push(format!("X,{}", v[0])),
             hook::Ev::Mark(_, _) => {}
             hook::Ev::Rx(p) => { toks.push(format!("R,{}", hex(p))); nrx += 1; in_rx = true; }
             hook::Ev::Tx(p) => {
@@ -387,7 +514,13 @@ pub fn replay_lines(side: usize, c: &Case, o: &Outcome) -> (String, String, usiz
     }
     let s = &o.snaps[side];
     let st = match s.state { SctpState::New => "new", SctpState::Connecting => "connecting", SctpState::Connected => "connected", SctpState::Closed => "closed" };
-    for (s2, id) in &c.closes { if *s2 == side { toks.push(format!("X,{id}")); } }
+    // application calls made on a quiet link: their effect on the channel table does not depend on their
+    // position among the trace events of the closing phase, so they are replayed first; then the teardown
+    let quiet_at = toks.len();
+    let _ = quiet_at;
+    for (s2, id) in &c.closes { if *s2 == side { toks.push(format!("X,{id}")); } }   // early closes (side + 2): at their trace mark
+    if o.ended { if let End::LocalClose(s2) = c.end { if s2 == side { toks.push("Z".into()); } } }
+    toks.push("F".into());
     let chans = if o.chans_final[side].is_empty() { "-".to_string() } else { o.chans_final[side].iter().map(|cf| {
         let evs: Vec<String> = o.events[side].iter().filter(|(c, _)| *c == cf.id).map(|(_, e)| ev_text(e)).collect();
         let tail = if cf.negotiated { String::new() } else { format!(":o{}:r{}:t{}:{}:{}", cf.ordered as u8, ou(cf.max_retransmits), ou(cf.max_lifetime),
@@ -423,13 +556,20 @@ pub fn oracle(c: &Case, o: &Outcome) -> Vec<(String, String)> {
             if let Some((k, d)) = kind {
                 fails.push((format!("prefix:{k}"), format!("{}→{} ch{}: {d}", ["A", "B"][side], ["A", "B"][peer], ch.id)));
             } else if delivered.len() < submitted.len() {
-                let closed = o.snaps.iter().any(|s| s.state == SctpState::Closed || s.close_reason.is_some())
-                    || o.events[peer].iter().any(|(id, e)| *id == ch.id && matches!(e, DataChannelEvent::Close));
-                if !closed && o.send_errors.is_empty() {
+                // excused only by a close the case itself asked for (teardown / close_data_channel of this channel)
+                let excused = (0..2).any(|s| c.end.closes_side(s)) || c.closes.iter().any(|(_, id)| *id == ch.id);
+                if !excused {
                     fails.push(("stall".into(), format!("{}→{} ch{}: {} of {} delivered after {} ms (script exhausted: {})",
                         ["A", "B"][side], ["A", "B"][peer], ch.id, delivered.len(), submitted.len(), o.elapsed_ms, o.faults_used.iter().all(|u| *u))));
                 }
             }
+        }
+    }
+    // nothing in these runs asks an association to close: a Closed side is a failure of its own
+    for side in 0..2 {
+        let s = &o.snaps[side];
+        if (s.state == SctpState::Closed || s.close_reason.is_some()) && !c.end.closes_side(side) && !(0..2).any(|x| c.end.closes_side(x)) {
+            fails.push(("close:association-closed-without-cause".into(), format!("{} is {:?} (reason {:?}) after {} ms", ["A", "B"][side], s.state, s.close_reason, o.elapsed_ms)));
         }
     }
     fails
@@ -454,7 +594,7 @@ fn minimise(c: &Case, kind: &str, port: u16) -> Vec<Fault> {
     let mut i = 0;
     while i < cur.len() && cur.len() > 1 {
         let mut t = cur.clone(); t.remove(i);
-        let cc = Case { cfg: c.cfg.clone(), chans: c.chans.clone(), msgs: c.msgs.clone(), faults: t.clone(), deadline: c.deadline, settle: c.settle, closes: c.closes.clone() };
+        let cc = Case { cfg: c.cfg.clone(), chans: c.chans.clone(), msgs: c.msgs.clone(), faults: t.clone(), deadline: c.deadline, settle: c.settle, closes: c.closes.clone(), end: c.end };
         let o = run_one(&cc, port);
         if oracle(&cc, &o).iter().any(|(k, _)| k == kind) { cur = t; } else { i += 1; }
     }
@@ -486,6 +626,37 @@ fn link_cases(args: &Args, rng: &mut Rng) -> Vec<LinkCase> {
     for f in ["A.TSN.1.dropn1+A.DATA.3.dup", "A.TSN.0.dropn1+A.DATA.2.dup+A.DATA.4.late2", "A.TSN.2.dropn2+B.SACK.2.drop"] {
         v.push(LinkCase { name: format!("directed-{f}"), case: mk_case(&wl[4], faults_parse(f), None) });
         v.push(LinkCase { name: format!("directed-{f}-w"), case: mk_case(&wl[6], faults_parse(f), Some(0xFFFF_FFFD)) });
+    }
+    // a SACK with gap blocks overtaken by later SACKs × a second DATA loss further on (a sender that re-bases
+    // the stale blocks on a newer cumulative TSN would mark chunks the receiver never got)
+    let full = args.tier_thorough || std::env::var("VERIF_FULLGRID").is_ok();
+    for d1 in [1u32, 2, 3] { for k in 2u32..6 { for hold in [1u32, 2, 3] { for d2 in 20u32..60 {
+        if !full && !(d1 == 1 && k == 2 && d2 <= 40) { continue; }
+        let f = format!("A.TSN.{d1}.dropn1+B.SACK.{k}.delay{hold}+A.TSN.{d2}.dropn1");
+        let tsn = if (k + d2) % 2 == 0 { None } else { Some(0xFFFF_FFFBu32) };
+        v.push(LinkCase { name: format!("stale-gap-sack-{f}"), case: mk_case(&[70_000], faults_parse(&f), tsn) });
+    } } } }
+    // an established association left idle for longer than the whole INIT / COOKIE-ECHO retransmission budget stays up
+    // (a T1 timer that was never cancelled would close it with INIT_TIMEOUT), and still carries data afterwards
+    {
+        let mut c = mk_case(&[300, 5000], vec![], None);
+        c.settle = Duration::from_millis(3800);
+        v.push(LinkCase { name: "long-idle".into(), case: c });
+        let mut c = mk_case(&[300, 5000], faults_parse("B.COOKIEACK.1.drop"), Some(0xFFFF_FFF0));
+        c.settle = Duration::from_millis(3800);
+        v.push(LinkCase { name: "long-idle-after-cookie-ack-loss".into(), case: c });
+    }
+    // the peer closes one channel (RE-CONFIG outgoing SSN reset for that stream) in the middle of the traffic:
+    // the sibling channel keeps its sequence numbers and its order
+    for (i, closer) in [3usize, 2].iter().enumerate() {
+        let mut c = mk_case(&[10, 20, 3000, 30], vec![], if i == 0 { None } else { Some(0xFFFF_FFF9) });
+        for side in 0..2 { c.chans[side].push(ChanSpec::reliable(2)); }
+        c.msgs.insert(0, Msg { side: 0, chan: 2, data: payload(0, 2, 0, 40), phase: 0, task: 0 });
+        c.msgs.push(Msg { side: 1, chan: 1, data: payload(1, 1, 0, 50), phase: 0, task: 0 });
+        c.msgs.push(Msg { side: 1, chan: 1, data: payload(1, 1, 1, 60), phase: 1, task: 0 });
+        c.msgs.push(Msg { side: 0, chan: 1, data: payload(0, 1, 4, 70), phase: 1, task: 0 });
+        c.closes = vec![(*closer, 2)];
+        v.push(LinkCase { name: format!("close-sibling-midway{i}"), case: c });
     }
     // thorough: every pair of faults on the four setup chunks
     if args.tier_thorough {
@@ -549,6 +720,13 @@ pub fn run(args: &Args) {
                 }
                 return;
             }
+            Some("hsack") => {
+                let Some(c) = hsack_parse(&toks[1..]) else { println!("cannot parse case: {case}"); return; };
+                let mut run = Run::new("c01", &format!("{}/replay", args.out));
+                let rt = tokio::runtime::Builder::new_current_thread().enable_all().build().unwrap();
+                rt.block_on(async { let mut ep = Endpoint::new(57_900, 57_901, true, &EpCfg::default(), &[]).await; emit_hsack(&mut run, &mut ep, &c, true).await; ep.shutdown(); });
+                return;
+            }
             Some("sack") if toks.len() >= 6 => {
                 let gaps: Vec<(u16, u16)> = if toks[2] == "-" { vec![] } else { toks[2].split(',').filter_map(|g| { let (a, b) = g.split_once('-')?; Some((a.parse().ok()?, b.parse().ok()?)) }).collect() };
                 let recs: Vec<hook::VRecord> = toks[6..].iter().filter_map(|t| { let f: Vec<&str> = t.split(',').collect(); if f.len() != 11 { return None; }
@@ -578,6 +756,7 @@ pub fn run(args: &Args) {
     gap_cases(&mut run, &mut rng, args.tier_thorough);
     sack_cases(&mut run, &mut rng, args.tier_thorough);
     istream_cases(&mut run, &mut rng, args.tier_thorough);
+    hsack_cases(&mut run, &mut rng, args.tier_thorough);
     frag_cases(&mut run, &rt, &mut rng, args.tier_thorough);
     drop(rt);
 
@@ -614,7 +793,7 @@ pub fn run(args: &Args) {
         for (kind, detail) in oracle(c, &o) {
             let min = minimise(c, &kind, 2000);
             let sig = format!("hist:{}:{kind}", script_class(&min));
-            let mc = Case { cfg: c.cfg.clone(), chans: c.chans.clone(), msgs: c.msgs.clone(), faults: min, deadline: c.deadline, settle: c.settle, closes: c.closes.clone() };
+            let mc = Case { cfg: c.cfg.clone(), chans: c.chans.clone(), msgs: c.msgs.clone(), faults: min, deadline: c.deadline, settle: c.settle, closes: c.closes.clone(), end: c.end };
             run.fail(&sig, &case_text(&mc), &format!("{detail} [{}; from {text}]", lc.name));
         }
     }
